@@ -602,6 +602,12 @@ func (p *parser) parseModItem() ModItem {
 	case p.accept("ghost"):
 		mi.Kind = "ghost"
 		mi.Name = p.ident()
+		if p.accept("[") {
+			// one entry of a ghost array indexed by object reference
+			mi.Kind = "ghostelem"
+			mi.X = p.parseExpr()
+			p.expect("]")
+		}
 	case p.accept("heap"):
 		mi.Kind = "heap"
 		// heap [alias.]Type.Field
